@@ -42,8 +42,8 @@ pub fn gen_case(rng: &mut Rng, flavour: Flavour, thorough: bool) -> ModelCase {
     }
   };
   let profile = match flavour {
-    Flavour::C14 => *rng.pick(&[Profile::Basic, Profile::Nested, Profile::Nested, Profile::Unsafe]),
-    _ => *rng.pick(&[Profile::Basic, Profile::Basic, Profile::Nested, Profile::Unsafe]),
+    Flavour::C14 => *rng.pick(&[Profile::Basic, Profile::Nested, Profile::Nested, Profile::Unsafe, Profile::UnsafeNested, Profile::UnsafeNested]),
+    _ => *rng.pick(&[Profile::Basic, Profile::Basic, Profile::Nested, Profile::Nested, Profile::Unsafe, Profile::UnsafeNested]),
   };
   let cfg = Cfg {
     storage,
@@ -90,6 +90,7 @@ pub fn gen_case(rng: &mut Rng, flavour: Flavour, thorough: bool) -> ModelCase {
       at,
       Op::Relocate {
         original: rng.below(3) as u8,
+        naming: rng.below(3) as u8,
       },
     );
     // make sure something happens at the copy
@@ -159,7 +160,20 @@ pub fn probes(profile: Profile, versions: &BTreeSet<u64>) -> Vec<(String, Search
         out.push((format!("term hid:{}", w), base(json!({"type":"term","field":"hid","value":w}), None)));
       }
     }
-    Profile::Nested => {
+    Profile::Nested | Profile::UnsafeNested => {
+      if profile == Profile::UnsafeNested {
+        for l in ["en", "fr", "de"] {
+          out.push((
+            format!("nested lang={}", l),
+            base(all.clone(), Some(json!({"Nested":{"path":"items","filter":{"KeywordEq":{"field":"lang","value":l}}}}))),
+          ));
+          out.push((
+            format!("dotted items.lang={}", l),
+            base(all.clone(), Some(json!({"KeywordEq":{"field":"items.lang","value":l}}))),
+          ));
+          out.push((format!("term items.lang:{}", l), base(json!({"type":"term","field":"items.lang","value":l}), None)));
+        }
+      }
       for k in ["a", "b", "c", "z"] {
         out.push((
           format!("nested k={}", k),
@@ -289,7 +303,7 @@ pub fn run_case(case: &ModelCase, wroot: &Path, flavour: Flavour, stats: &mut St
   } else {
     None
   };
-  let mut root = wroot.join("a");
+  let mut root = wroot.join("data.bak");
   let mut generation = 0usize;
   let mut relocated = false;
   let mut original_listing: Option<(PathBuf, BTreeMap<PathBuf, Vec<u8>>)> = None;
@@ -300,7 +314,7 @@ pub fn run_case(case: &ModelCase, wroot: &Path, flavour: Flavour, stats: &mut St
       return out;
     }
   };
-  let mut model = Model::new(cfg.profile == Profile::Unsafe);
+  let mut model = Model::new(cfg.profile.compact_unsafe());
   let mut reader_expect: BTreeMap<usize, Contents> = BTreeMap::new();
   let mut versions: BTreeSet<u64> = BTreeSet::new();
   let mut escapes_seen = 0usize;
@@ -318,7 +332,7 @@ pub fn run_case(case: &ModelCase, wroot: &Path, flavour: Flavour, stats: &mut St
 
   for (step, op) in case.ops.iter().enumerate() {
     // ---- relocation is an engine-level operation
-    if let Op::Relocate { original } = op {
+    if let Op::Relocate { original, naming } = op {
       let Some(fs) = &fs else { continue };
       if session.index.is_none() {
         continue;
@@ -330,7 +344,16 @@ pub fn run_case(case: &ModelCase, wroot: &Path, flavour: Flavour, stats: &mut St
       reader_expect.clear();
       model.reopen();
       generation += 1;
-      let newroot = wroot.join(format!("{}", (b'a' + generation as u8) as char));
+      // adversarial names: the new path may be a textual prefix of the old one
+      // (restore `idx.bak` to `idx`) or extend it (`idx` copied to `idx2`)
+      let cur = root.file_name().map(|n| n.to_string_lossy().to_string()).unwrap_or_else(|| "data".into());
+      let name = match naming {
+        1 if cur.len() > 1 => cur[..cur.len() - 1].trim_end_matches('.').to_string(),
+        2 => format!("{}2", cur),
+        _ => format!("r{}", generation),
+      };
+      let name = if name.is_empty() || name == cur { format!("r{}", generation) } else { name };
+      let newroot = wroot.join(name);
       copy_tree(fs, &root, &newroot);
       match original {
         0 => {
@@ -512,13 +535,16 @@ pub fn run_case(case: &ModelCase, wroot: &Path, flavour: Flavour, stats: &mut St
           stats.add("probe.queries_compared", post.len() as u64);
           for ((label, a), (_, b)) in pre.iter().zip(post.iter()) {
             if a != b {
-              violate!(
+              // recorded, but the contents check below still runs (the same
+              // defect usually breaks C04 as well)
+              out.violations.push(Violation::new(
                 &["C14"],
                 "probe-mismatch",
                 "compact",
                 step,
-                format!("query `{}` matched {:?} before compaction and {:?} after", label, a, b)
-              );
+                format!("query `{}` matched {:?} before compaction and {:?} after", label, a, b),
+              ));
+              break;
             }
           }
         }
@@ -584,6 +610,10 @@ pub fn run_case(case: &ModelCase, wroot: &Path, flavour: Flavour, stats: &mut St
         Err(e) => violate!(&props, "contents-mismatch", op.kind(), step, format!("after {}: {}", op.short(), e)),
       },
       Err(o) => violate!(&props, "read-failed", op.kind(), step, format!("reader/search after {} -> {}", op.short(), o.short())),
+    }
+    if !out.violations.is_empty() {
+      verif::fs::unmount(wroot);
+      return out;
     }
     // ---- C28: nothing outside the new root, original untouched
     if relocated {
